@@ -4,6 +4,8 @@ import SlipVerif.Lemmas.JsonLisp
 import SlipVerif.Lemmas.JsonText
 import SlipVerif.Lemmas.JsonScan
 import SlipVerif.Lemmas.JsonConfig
+import SlipVerif.Lemmas.JsonSen
+import SlipVerif.Model.JsonWrite
 /-
   C18 — property theorems about the JSON model (Model/Json.lean, JsonText.lean, JsonLisp.lean),
   the model the correspondence harness (harness/cmd/vh/c18*.go) runs against the implementation.
@@ -245,6 +247,21 @@ theorem simplify_roundtrip_fails_outside_guard :
 theorem simpleObject_uint_value (bits v : Nat) (h : bits ≠ 8) : simpleObject (.uint bits v) = .int v := by
   simp [simpleObject, h]
 
+/-- Plain Go data of every listed kind — nil, true, integers of every width and sign (a uint64
+    above the int64 maximum included), both float widths, strings, times, slices and string-keyed
+    maps, nested — converted to Lisp objects (`slip.SimpleObject`) and put into a bag
+    (`bag.ObjectToBag`: make-bag, bag-set, :set) is the same data. (The guard excludes what Lisp
+    cannot express: `false` and empty containers arrive as nil.) -/
+theorem go_data_into_bag (g : G) (h : GBag g = true) : ofLisp (simpleObject g) = .ok (gToJ g) :=
+  ofLisp_simpleObject g h
+
+example : GBag (.map [("a", .slice [.uint 64 18446744073709551615, .int 8 (-128), .f32 "1.5", .nil]), ("b", .map [("c", .time "t")])]) = true := by decide
+
+/-- … and outside the guard the data is changed in exactly the documented way -/
+theorem go_data_into_bag_outside_guard :
+    ofLisp (simpleObject (.bool false)) = .ok .null ∧ ofLisp (simpleObject (.slice [])) = .ok .null ∧
+    ofLisp (simpleObject (.map [])) = .ok .null := ⟨rfl, rfl, rfl⟩
+
 /-! ## JSON text: the model parser reads back what the model writer wrote -/
 
 /-- Writing a document (compact or with any white-space layout: the model's `:pretty` / `:depth`)
@@ -372,5 +389,116 @@ theorem parseWith_default (text : String) : parseWith Cfg.init text = parse text
 
 example : (runHistory [.format "second", .wrap "t", .format ""] Cfg.init).conv = .off := by decide
 example : (runHistory [.format "second"] Cfg.init).conv = .second := by decide
+
+/-! ## SEN text (the default text form of bags): bare words, no commas -/
+
+/-- Writing a document as SEN (quotes dropped for plain words, as values and as member keys;
+    items separated by blanks instead of commas; any white-space layout) and reading the text with
+    the SEN reader gives the document back. -/
+theorem sen_write_parse_roundtrip (lay : Layout) (hl : lay.WsOnly) (j : J) (hj : TextOk j = true) :
+    parseSen (writeSen lay j) = .ok j :=
+  parseSen_writeSen lay hl j hj
+
+/-- The same for every sufficient fuel, with separators (white space, commas) in front and any
+    text behind that starts with a delimiter. -/
+theorem sen_write_parse_roundtrip_any_fuel (lay : Layout) (hl : lay.WsOnly) (j : J) (hj : TextOk j = true)
+    (d fuel : Nat) (ws rest : List Char) (hws : ws.all isSep = true) (hf : needS j ≤ fuel) (hr : RestDelim rest) :
+    parseSenValue fuel (ws ++ (writeSenV lay d j ++ rest)) = .ok (j, rest) :=
+  parseSenValue_write lay hl j hj d fuel ws rest hws hf hr
+
+/-- Everything JSON is SEN: the SEN reader (the one `make-bag`, `:parse`, `bag-parse`, `bag-read`
+    use) reads what the JSON writer wrote as the same document. -/
+theorem sen_reads_json (lay : Layout) (hl : lay.WsOnly) (j : J) (hj : TextOk j = true) :
+    parseSen (write lay j) = .ok j :=
+  parseSen_write lay hl j hj
+
+/-- A plain word is a string: what the SEN writer leaves without quotes reads back as itself, and
+    the three keywords are never left bare. -/
+theorem sen_bare_word (cs : List Char) (h : bareOk cs = true) :
+    tokValue cs = .ok (str (String.ofList cs)) ∧ cs ≠ kwNull ∧ cs ≠ kwTrue ∧ cs ≠ kwFalse := by
+  refine ⟨tokValue_bare cs h, ?_, ?_, ?_⟩ <;>
+    (simp only [bareOk, Bool.and_eq_true, Bool.not_eq_true', decide_eq_false_iff_not] at h; simp [h])
+
+example : bareOk "word_2".toList = true ∧ bareOk "null".toList = false ∧ bareOk "a b".toList = false ∧ bareOk "1a".toList = false := by decide
+
+/-! ## a parse that fails leaves no trace (histories of parse calls) -/
+
+/-- the results of a history of parse calls -/
+def runParses (texts : List String) : List (Except PErr J) := texts.map parseSen
+
+/-- What a text parses to does not depend on the texts parsed before it (valid or not) nor on the
+    ones parsed after it: the reader is a function of the text alone. (The implementation keeps
+    pooled parsers; the recover family of the harness checks it against this.) -/
+theorem parses_independent (before after : List String) (t : String) :
+    (runParses (before ++ t :: after))[before.length]? = some (parseSen t) := by
+  simp [runParses]
+
+/-- in particular: a document written by either writer parses to itself after any history -/
+theorem parse_after_any_history (before : List String) (lay : Layout) (hl : lay.WsOnly) (j : J) (hj : TextOk j = true) :
+    (runParses (before ++ [writeSen lay j]))[before.length]? = some (.ok j) ∧
+    (runParses (before ++ [write lay j]))[before.length]? = some (.ok j) := by
+  constructor
+  · rw [parses_independent before [] _, sen_write_parse_roundtrip lay hl j hj]
+  · rw [parses_independent before [] _, sen_reads_json lay hl j hj]
+
+/-! ## the options of bag-write -/
+
+/-- the model's picture of the text `bag-write` produces under the collected settings: SEN or JSON
+    by the SEN flag, one item per line with the indentation in force when the pretty writer is
+    chosen, compact otherwise -/
+def textOf (w : WOpts) (j : J) : String :=
+  let lay := if writerOf w = .pretty then Layout.indent w.indent.toNat else Layout.compact
+  if w.sen then writeSen lay j else write lay j
+
+/-- Whatever keywords `bag-write` is given (any list the argument reader accepts, in any order,
+    repeated or not; any value of *print-pretty* and of the right margin): the text it writes is
+    read back by the bag reader as an equal bag. -/
+theorem write_options_roundtrip (printPretty : Bool) (margin : Int) (kws : List (String × KwVal)) (w : WOpts)
+    (_h : applyKws kws (WOpts.init printPretty margin) = some w) (j : J) (hj : TextOk j = true) :
+    parseSen (textOf w j) = .ok j := by
+  unfold textOf
+  have hl : (if writerOf w = .pretty then Layout.indent w.indent.toNat else Layout.compact).WsOnly := by
+    split
+    · exact Layout.indent_wsOnly _
+    · exact Layout.compact_wsOnly
+  by_cases hs : w.sen = true
+  · simp only [hs, if_true]; exact sen_write_parse_roundtrip _ hl j hj
+  · simp only [hs, Bool.false_eq_true, if_false]; exact sen_reads_json _ hl j hj
+
+example : applyKws [(":pretty", .t), (":depth", .fix 0), (":json", .t)] (WOpts.init false 80) =
+    some { prty := true, maxDepth := 0, indent := 0, sen := false, color := false, width := 80, sort := true,
+           timeFormat := none, timeWrap := none } := by decide
+
+/-- With `:json` non-nil last among the `:json` keywords the text is strict JSON: the strict reader
+    (json-parse with the strict flag) reads it back too. -/
+theorem write_options_json_strict (w : WOpts) (hs : w.sen = false) (j : J) (hj : TextOk j = true) :
+    parse (textOf w j) = .ok j := by
+  unfold textOf
+  simp only [hs, Bool.false_eq_true, if_false]
+  split
+  · exact write_parse_roundtrip _ (Layout.indent_wsOnly _) j hj
+  · exact write_parse_roundtrip _ Layout.compact_wsOnly j hj
+
+/-- the SEN flag after a keyword list is decided by its last `:json` keyword (SEN when there is none) -/
+theorem json_keyword_last_wins (kws : List (String × KwVal)) (v : KwVal) (w0 w : WOpts)
+    (h : applyKws (kws ++ [(":json", v)]) w0 = some w) : w.sen = !v.notNil := by
+  induction kws generalizing w0 with
+  | nil =>
+    simp only [List.nil_append, applyKws, applyKw] at h
+    simp at h
+    rw [← h]
+  | cons kv rest ih =>
+    obtain ⟨k, x⟩ := kv
+    simp only [List.cons_append, applyKws] at h
+    cases hk : applyKw k x w0 with
+    | none => simp [hk] at h
+    | some w1 =>
+      simp only [hk, Option.bind_some] at h
+      exact ih w1 h
+
+/-- the pretty writer is used exactly when the pretty flag is on and the depth exceeds 1 -/
+theorem pretty_writer_iff (w : WOpts) : writerOf w = .pretty ↔ (w.prty = true ∧ 1 < w.maxDepth) := by
+  unfold writerOf
+  by_cases h1 : w.prty = true <;> by_cases h2 : 1 < w.maxDepth <;> simp [h1, h2] <;> split <;> simp
 
 end SlipVerif.Json
